@@ -37,7 +37,7 @@ from mc.core.report import digest
 
 logging.getLogger('falcon').setLevel(100)
 
-OPS = ['accept', 'accept_sub', 'accept_hdr', 'close', 'close3001', 'close999', 'close1005', 'send_text', 'send_data', 'send_data_buf',
+OPS = ['accept', 'accept_sub', 'accept_hdr', 'accept_proto', 'close', 'close3001', 'close999', 'close1005', 'send_text', 'send_data', 'send_data_buf',
        'send_media', 'send_text_bytes', 'recv_text', 'recv_data', 'recv_media', 'raise403', 'raise_status', 'raise_value']
 CORE_OPS = ['accept', 'close', 'close999', 'send_text', 'send_media', 'recv_text', 'recv_data', 'raise403', 'raise_value']
 TERMINAL = {'raise403', 'raise_status', 'raise_value'}
@@ -145,6 +145,8 @@ def monitor(env, spec):
                 if not (isinstance(item, (tuple, list)) and len(item) == 2 and type(item[0]) is bytes and type(item[1]) is bytes
                         and item[0] == item[0].lower()):
                     out.append(('bad-accept-header', 'accept header %r is not (lower-case bytes, bytes)' % (item,)))
+                elif item[0] == b'sec-websocket-protocol':
+                    out.append(('forbidden-accept-header', 'accept headers carry sec-websocket-protocol (ASGI: use "subprotocol")'))
             state = 'open'
         elif t == 'websocket.send':
             if state != 'open':
@@ -185,11 +187,14 @@ class Model:
         Returns the set of acceptable outcomes: ('ok', value) / ('exc', class name)."""
         st = self.st
         dead = st == 'closed' or gone or self.client_seen_gone
-        if name in ('accept', 'accept_sub', 'accept_hdr'):
+        if name in ('accept', 'accept_sub', 'accept_hdr', 'accept_proto'):
             if st != 'hs' or dead:
                 return {('exc', 'OperationNotAllowed')}
-            if name == 'accept_hdr' and self.spec == '2.0':
+            if name in ('accept_hdr', 'accept_proto') and self.spec == '2.0':
                 return {('exc', 'OperationNotAllowed')}
+            if name == 'accept_proto':
+                # the subprotocol may only be chosen through the subprotocol argument: documented ValueError, nothing sent
+                return {('exc', 'ValueError')}
             ev = {'type': 'websocket.accept'}
             if name == 'accept_sub':
                 ev['subprotocol'] = 'p1'
@@ -343,6 +348,8 @@ async def run_script(ws, holder):
                 r = await ws.accept(subprotocol='p1')
             elif name == 'accept_hdr':
                 r = await ws.accept(headers=[('X-A', '1')])
+            elif name == 'accept_proto':
+                r = await ws.accept(headers={'X-A': '1', 'Sec-WebSocket-Protocol': 'chat'})
             elif name == 'close':
                 r = await ws.close()
             elif name == 'close3001':
